@@ -1,6 +1,7 @@
 import Hive.Model.SyncMutex
 import Hive.Model.SyncMutexDag
 import Hive.Model.SyncMutexWait
+import Hive.Model.SyncMutexWaitV
 import Hive.Model.SyncMutexComp
 import Hive.Base.Proto
 /-!
@@ -141,10 +142,13 @@ def compArrive (c : Cfg Comp.CSh Comp.CTh) (i : Nat) (op : Dag.DOp) : Option (Cf
   | some t => if t.ctl = .idle ∧ t.script = [] then some (c.1, c.2.set i { t with script := [op] }) else none
   | none => none
 
-/-! ## Counter/Stack monitor arrivals -/
+/-! ## Counter/Stack monitor arrivals (data model `WaitV.sys` = the wait monitor + stack contents, return values,
+subscriber notifications) -/
 
-def wStatus (t : Wait.WTh) : Char :=
-  match t.pc with
+abbrev WCfg := Cfg WaitV.MonV WaitV.WThV
+
+def wStatus (t : WaitV.WThV) : Char :=
+  match t.base.pc with
   | .idle => 'i'
   | .parkI _ _ | .parkD _ _ => 'b'
   | _ => '?'
@@ -152,11 +156,18 @@ def wStatus (t : Wait.WTh) : Char :=
 def showRes (l : List Bool) : String :=
   if l.isEmpty then "-" else String.ofList (l.reverse.map (fun b => if b then '1' else '0'))
 
-/-- statuses, value, per goroutine the pop results and the answers its `waitCondition` callback gave -/
-def wObs (c : Cfg Wait.Mon Wait.WTh) : String :=
-  String.ofList (c.2.map wStatus) ++ " " ++ toString c.1.value ++ " " ++ " ".intercalate (c.2.map (fun t => showRes t.res))
-    ++ " " ++ " ".intercalate (c.2.map (fun t => showRes t.cb))
+def showList {α : Type} (f : α → String) (l : List α) : String :=
+  if l.isEmpty then "-" else ",".intercalate (l.reverse.map f)
 
+/-- statuses, value, per goroutine the pop results and the answers its `waitCondition` callback gave; then for a
+Stack the elements each goroutine took (in order), for a Counter the return values of each goroutine's `Set`/`Update`
+calls and the notifications the subscriber received (in order) -/
+def wObs (stack : Bool) (c : WCfg) : String :=
+  String.ofList (c.2.map wStatus) ++ " " ++ toString c.1.base.value ++ " " ++ " ".intercalate (c.2.map (fun t => showRes t.base.res))
+    ++ " " ++ " ".intercalate (c.2.map (fun t => showRes t.base.cb)) ++ " | " ++
+    (if stack then " ".intercalate (c.2.map (fun t => showList toString t.vals))
+     else " ".intercalate (c.2.map (fun t => showList toString t.rets)) ++ " | "
+       ++ showList (fun (p : Int × Int) => toString p.1 ++ ">" ++ toString p.2) c.1.log)
 
 def parseWOp : List String → Option Wait.WOp
   | ["add", d] => d.toInt?.map .add
@@ -168,39 +179,38 @@ def parseWOp : List String → Option Wait.WOp
   | ["shutdown"] => some .shutdown
   | _ => none
 
-def wArrive (c : Cfg Wait.Mon Wait.WTh) (i : Nat) (op : Wait.WOp) : Option (Cfg Wait.Mon Wait.WTh) :=
+/-- goroutine `i`, between calls, is given several calls to execute back to back -/
+def wArriveS (c : WCfg) (i : Nat) (ops : List Wait.WOp) : Option WCfg :=
   match c.2[i]? with
-  | some t => if t.pc = .idle ∧ t.script = [] then some (c.1, c.2.set i { t with script := [op] }) else none
+  | some t =>
+    if t.base.pc = .idle ∧ t.base.script = [] then some (c.1, c.2.set i { t with base := { t.base with script := ops } })
+    else none
   | none => none
 
+def wArrive (c : WCfg) (i : Nat) (op : Wait.WOp) : Option WCfg := wArriveS c i [op]
+
 /-- first successor of goroutine `i` whose new state satisfies `pick` -/
-def stepThread (c : Cfg Wait.Mon Wait.WTh) (i : Nat) (pick : Wait.WTh → Bool) : Option (Cfg Wait.Mon Wait.WTh) :=
+def stepThread (c : WCfg) (i : Nat) (pick : Wait.WTh → Bool) : Option WCfg :=
   match c.2[i]? with
   | none => none
   | some t =>
-    match (Wait.step c.1 t).find? (fun p => pick p.2) with
+    match (WaitV.step c.1 t).find? (fun p => pick p.2.base) with
     | some p => some (p.1, c.2.set i p.2)
     | none => none
 
 /-- The shutdown-in-the-callback scenario: goroutine `a` calls `PopOrWait` on an empty stack and is inside its
 `waitCondition` callback (which will answer true) — still holding the lock, program point `critW` — when
 goroutine `b` calls `SignalShutdown`. -/
-def wGapStart (c : Cfg Wait.Mon Wait.WTh) (a b : Nat) : Option (Cfg Wait.Mon Wait.WTh) := do
+def wGapStart (c : WCfg) (a b : Nat) : Option WCfg := do
   let c1 ← wArrive c a .popOrWait
   let c2 ← stepThread c1 a (fun _ => true)                 -- the call starts
   let c3 ← stepThread c2 a (fun _ => true)                 -- takes the lock
   let c4 ← stepThread c3 a (fun t => t.pc == .critW)       -- empty stack, the callback says "wait"
   wArrive c4 b .shutdown
 
-/-- goroutine `i`, between calls, is given several calls to execute back to back -/
-def wArriveS (c : Cfg Wait.Mon Wait.WTh) (i : Nat) (ops : List Wait.WOp) : Option (Cfg Wait.Mon Wait.WTh) :=
-  match c.2[i]? with
-  | some t => if t.pc = .idle ∧ t.script = [] then some (c.1, c.2.set i { t with script := ops }) else none
-  | none => none
-
 /-- The push-then-wait family: goroutine `t` does `Push` × m immediately followed by `WaitIsEmpty`, while (optionally)
 goroutine `u` calls `WaitSizeIsBelow(thr)`; consumers parked in `PopOrWait` race with both. -/
-def wPushWaitStart (c : Cfg Wait.Mon Wait.WTh) (t m : Nat) (u : Option (Nat × Int)) : Option (Cfg Wait.Mon Wait.WTh) := do
+def wPushWaitStart (c : WCfg) (t m : Nat) (u : Option (Nat × Int)) : Option WCfg := do
   let c1 ← wArriveS c t (List.replicate m (.add 1) ++ [.waitBelow 1])
   match u with
   | none => pure c1
@@ -208,7 +218,7 @@ def wPushWaitStart (c : Cfg Wait.Mon Wait.WTh) (t m : Nat) (u : Option (Nat × I
 
 /-- Generations are unbounded counters that do not matter for equality of futures once nobody is parked
 with an old one; keeping them in the key is sound (only less sharing). -/
-def wKey (c : Cfg Wait.Mon Wait.WTh) : Cfg Wait.Mon Wait.WTh := c
+def wKey (c : WCfg) : WCfg := c
 
 /-! ## Exclusion on a grant/release trace -/
 
@@ -299,7 +309,7 @@ inductive St
   | sm (cs : List (Cfg Mx Th))
   | dag (nEnt : Nat) (cs : List (Cfg Dag.DSh Dag.DTh))
   | dagc (nEnt : Nat) (cs : List (Cfg Comp.CSh Comp.CTh))
-  | wm (cs : List (Cfg Wait.Mon Wait.WTh))
+  | wm (stack : Bool) (cs : List WCfg)
 
 def dedupBy {α κ : Type} [BEq κ] (key : α → κ) : List α → List κ → List α
   | [], _ => []
@@ -397,29 +407,31 @@ def stepLine (st : St) (toks : List String) : St × String :=
       let (ok, ans) := answer (dagObs e) (" ".intercalate obs) (dedupBy (dagKey e) outs []) complete
       (.dag e ok, ans)
     | _, _, _ => (st, "bad-op")
-  | ["wm", n, v, _kind] =>
+  | ["wm", n, v, kind] =>
     match n.toNat?, v.toInt? with
-    | some n, some v => (.wm [(Wait.Mon.init v, List.replicate n (Wait.WTh.new []))], "ok")
+    | some n, some v =>
+      if kind == "stack" then (.wm true [(WaitV.MonV.initStack v.toNat, List.replicate n (WaitV.WThV.new []))], "ok")
+      else (.wm false [(WaitV.MonV.initCounter v, List.replicate n (WaitV.WThV.new []))], "ok")
     | _, _ => (st, "bad-op")
   | "w" :: i :: rest =>
     -- w T <op tokens…> | <obs tokens…>
     let opToks := rest.takeWhile (· != "|")
     let obs := (rest.dropWhile (· != "|")).drop 1
     match st, i.toNat?, parseWOp opToks with
-    | .wm cs, some i, some op =>
+    | .wm k cs, some i, some op =>
       let starts := cs.filterMap (fun c => wArrive c i op)
-      let (outs, complete) := quiescentFrom Wait.sys wKey starts
-      let (ok, ans) := answer wObs (" ".intercalate obs) (dedupBy wKey outs []) complete
-      (.wm ok, ans)
+      let (outs, complete) := quiescentFrom WaitV.sys wKey starts
+      let (ok, ans) := answer (wObs k) (" ".intercalate obs) (dedupBy wKey outs []) complete
+      (.wm k ok, ans)
     | _, _, _ => (st, "bad-op")
   | "wg" :: a :: b :: rest =>
     let obs := (rest.dropWhile (· != "|")).drop 1
     match st, a.toNat?, b.toNat? with
-    | .wm cs, some a, some b =>
+    | .wm k cs, some a, some b =>
       let starts := cs.filterMap (fun c => wGapStart c a b)
-      let (outs, complete) := quiescentFrom Wait.sys wKey starts
-      let (ok, ans) := answer wObs (" ".intercalate obs) (dedupBy wKey outs []) complete
-      (.wm ok, ans)
+      let (outs, complete) := quiescentFrom WaitV.sys wKey starts
+      let (ok, ans) := answer (wObs k) (" ".intercalate obs) (dedupBy wKey outs []) complete
+      (.wm k ok, ans)
     | _, _, _ => (st, "bad-op")
   | "wq" :: t :: m :: u :: thr :: rest =>
     let obs := (rest.dropWhile (· != "|")).drop 1
@@ -429,11 +441,11 @@ def stepLine (st : St) (toks : List String) : St × String :=
         | some u, some thr => some (some (u, thr))
         | _, _ => none
     match st, t.toNat?, m.toNat?, second with
-    | .wm cs, some t, some m, some second =>
+    | .wm k cs, some t, some m, some second =>
       let starts := cs.filterMap (fun c => wPushWaitStart c t m second)
-      let (outs, complete) := quiescentFrom Wait.sys wKey starts
-      let (ok, ans) := answer wObs (" ".intercalate obs) (dedupBy wKey outs []) complete
-      (.wm ok, ans)
+      let (outs, complete) := quiescentFrom WaitV.sys wKey starts
+      let (ok, ans) := answer (wObs k) (" ".intercalate obs) (dedupBy wKey outs []) complete
+      (.wm k ok, ans)
     | _, _, _, _ => (st, "bad-op")
   | "tr" :: evs =>
     match evs.mapM parseEv with
